@@ -6,6 +6,7 @@ import RQ.Model.Validators
 import RQ.Props.C08
 import Mathlib.Tactic.Linarith
 import Mathlib.Tactic.SplitIfs
+import RQ.Model.World
 
 namespace RQ.Props.C16
 open RQ.Q
@@ -90,5 +91,31 @@ example : validate ⟨true, true, true, true, false⟩ ⟨false, 1, 0, 1, true, 
     validate ⟨true, false, true, true, false⟩ ⟨false, 1, 0, 1, true, 100⟩ ⟨true, 11.5, 11.5, 100, .open_, true⟩
       ⟨false, true, true, false, some 11, some 9⟩ 0 0 5 100000 [] = none := by
   decide +kernel
+
+
+/-! ### inside the composed world (`RQ/Model/World.lean`) -/
+
+/-- **a rejected order has no side effect, in the whole system**: when a validator of the chain vetoes a created order, the world after
+`submit` IS the world before — no cash reserved, no order in any book, no position touched, no fee state moved, no ghost operation
+logged — and the only thing published is the creation-reject with the first veto -/
+theorem world_veto_no_side_effect (w : World) (o : OrderReq) (wi : WIns) (d : DayIns) (k : Nat) (v : Veto)
+    (hwi : w.cfg.find o.ins = some wi) (hd : w.dayOf o.ins = some d) (hk : w.acctIdx wi = some k)
+    (hv : w.validate wi d o (if o.isLimit then o.price else (match w.lastPrice o.ins with | some p => p | none => 0)) = some v) :
+    w.submit o = (w, [.creationReject o.id v]) := by
+  unfold World.submit
+  simp only [hwi, hd, hk]
+  split
+  · rename_i v' heq
+    have : some v = some v' := hv.symm.trans heq
+    cases this
+    rfl
+  · rename_i heq
+    exact absurd (hv.symm.trans heq) (by simp)
+
+/-- an order on an instrument the day's market table does not know leaves the world as it is -/
+theorem world_unknown_instrument_no_side_effect (w : World) (o : OrderReq) (h : w.dayOf o.ins = none) :
+    w.submit o = (w, [.noMarket o.id]) := by
+  unfold World.submit
+  cases hf : w.cfg.find o.ins <;> simp [h]
 
 end RQ.Props.C16
